@@ -33,7 +33,7 @@ def _may_sql(f, e):
 
 @obligation(funcs=["storage.db.Subscription.build_query", "storage.db.Subscription.evaluate_filter",
                    "storage.db.DBStorage.process_tags"],
-            params=range(8), timeout=(280, 1200),
+            params=range(8), timeout=(450, 1500),
             bounds="PARAM = filter shape: 7 two tag conditions in one filter (event with two tags), 0 ids, 1 authors (+ delegation tag on the event), 2 kinds (1-2 values), 3 since/until, "
                    "4 one tag condition (1-2 values incl. ''), 5 kinds+tag+until, 6 two filters (kinds | tag).  ints symbolic, "
                    "strings by selector from small pools; event: symbolic kind/created_at, 1-2 tags of 1-2 items")
@@ -128,7 +128,7 @@ def _lex_fragment(text):
     return sqlmini.tokenize(text)
 
 
-@obligation(funcs=["storage.db.Subscription.evaluate_filter"], timeout=(280, 1200), params=range(2),
+@obligation(funcs=["storage.db.Subscription.evaluate_filter"], timeout=(450, 1500), params=range(2),
             bounds="PARAM 0: SQLite dialect, 1: Postgres dialect.  Tag name (1 character) and two tag values (<=2 characters) "
                    "SYMBOLIC strings over {a, quote, backslash, NUL, percent}")
 def ob_sql_literal(name: str, v1: str, v2: str) -> str:
@@ -172,7 +172,7 @@ def _quote(s):
     return "'" + s.replace("'", "''") + "'"
 
 
-@obligation(funcs=[], timeout=(200, 900),
+@obligation(funcs=[], timeout=(350, 1200),
             bounds="lemma used by ob_sql_literal: for every string of <=3 characters over {a, quote, backslash, NUL, percent} the "
                    "reference literal (quotes doubled) is read back by the SQL lexer as exactly one string token with that value")
 def ob_quote_lemma(v: str) -> str:
